@@ -1,8 +1,10 @@
 """C14 -- spline specific yield interpolates its knots and integrates consistently"""
 
+import math
+
 import numpy as np
 
-from .. import core, gen_params, oracle_hydraulics as oh
+from .. import argforms, core, gen_params, oracle_hydraulics as oh
 
 PROPERTY = 'C14'
 LEVEL = 'exploration'
@@ -11,7 +13,7 @@ RULE = (
     'G-params knot sets (4-9 strictly increasing knots, spacing 1-500 mm, values in [0, 1]: constant, increasing, '
     'arbitrary) built by the real create_specific_yield_function; per set 40 limit pairs/triples drawn from {below '
     'the range, at the first knot, inside, at a knot, at the last knot, above} in every order (a<b, a=b, a>b, both '
-    'beyond the same end).  Oracle: value at every knot; constancy beyond both ends; integrate(a,b) against the area '
+    'beyond the same end).  Oracle: value at every knot; constancy beyond both ends; for a fifth of the sets the same levels in every container form of spowtd_verif/argforms.py (argument unchanged, second evaluation identical); integrate(a,b) against the area '
     'under the same callable computed by 5-point Gauss-Legendre on each data-knot interval (exact for the cubic '
     'pieces) plus rectangles outside (1e-10 relative to the scale of the area); additivity over adjacent ranges and '
     'antisymmetry; a function built three sets earlier is re-checked after newer spline objects exist.  Non-trivial: limits straddling a domain end or reversed; distinct by (knot-set digest, class of '
@@ -28,6 +30,7 @@ REQUIRED = {
         'integrals-of-older-objects-rechecked': 1000,
         'dumped-sy-values-checked': 200,
         'integer-limits': 500,
+        'argument-forms-vs-scalar': 100,
         'class:below-below': 100, 'class:above-above': 100, 'class:below-above': 100, 'class:inside-inside': 100,
         'class:below-inside': 100, 'class:inside-above': 100, 'class:reversed': 2000, 'class:equal-limits': 100,
     }
@@ -88,6 +91,14 @@ def check_set(ctx, rng, params, npairs):
             rec.violation('not-constant-outside-the-knot-range', {'level': x, 'value': v, 'end_value': ref}, case, 'spline_sy')
             return
         rec.hit('extrapolation-checked')
+    # levels (knots, whole numbers beyond both ends and inside, arbitrary ones) in every container
+    # form; argument unchanged; second evaluation of the same object identical
+    if rng.random() < 0.2:
+        pts = [knots[0], knots[-1], float(math.floor(lo) - 3), float(math.ceil(hi) + 40), float(round(0.5 * (lo + hi))),
+               rng.uniform(lo, hi), rng.uniform(lo - span, hi + span)]
+        scalars = [float(sy(x)) for x in pts]
+        if not argforms.check_forms(rec, sy, pts, scalars, '', case, 'spline_sy', 'argument-forms-vs-scalar', exact=False, rel_tol=1e-13):
+            return
     f = lambda x: np.asarray(sy(np.asarray(x, dtype=float)), dtype=float)
     # the actual range of the function, for the scale of an area
     fmax = max(vmax, float(np.max(np.abs(f(np.linspace(lo, hi, 101))))))
